@@ -175,22 +175,24 @@ func (w *World) litHasPredicateField(cl *ast.CompositeLit) bool {
 // axisVariants: axis label -> set of query type names built under that label.
 func (w *World) axisVariants(r *Report) map[string]map[string]bool {
 	out := map[string]map[string]bool{}
-	si := w.axisSwitch()
-	if si == nil {
+	tab, br, err := w.axisTable()
+	if err != nil {
 		if r != nil {
-			r.bad("ANCHOR", "axis-switch", "", "the axis dispatch switch of the builder was not found")
+			r.bad("ANCHOR", "axis-switch", "", "the axis dispatch of the builder was not found: "+err.Error())
 		}
 		return out
 	}
-	for _, c := range si.Cases {
-		for _, l := range c.Labels {
-			if out[l] == nil {
-				out[l] = map[string]bool{}
-			}
-			for _, lit := range c.Lits {
-				out[l][w.litNamed(lit).Obj().Name()] = true
-			}
+	for _, l := range br.Axes {
+		out[l] = map[string]bool{}
+	}
+	for _, e := range tab {
+		if isFoldType(tab, e.Label, e.Type) {
+			continue // a step folded into another one (`//name`): judged by A-ELIDE
 		}
+		if out[e.Label] == nil {
+			out[e.Label] = map[string]bool{}
+		}
+		out[e.Label][e.Type.Name()] = true
 	}
 	return out
 }
